@@ -155,12 +155,18 @@ CLAIMED['C20'] = dict(
          'and the export side against a live OrbitDB, are NOT claimed (not encodable: see DESIGN 8).',
     design='6/C20, 8')
 
-NOT_APPLICABLE = {
-    'C08': 'The property quantifies over arrival orders of envelopes and chain-key announcements in MessageStore (processMessageLoop, per-device caches in a map of pointers to '
-           'priority queues, four goroutines around an OrbitDB event bus). The schedule-symbolic BMC of this technique family, as built here, has scalar and channel-pointer shared cells only: '
-           'maps and pointer-linked queues mutated by several goroutines cannot be encoded, and a sequential re-implementation of the loop would check a model, not the code. The parts of C08 '
-           'that are encodable are decided elsewhere: the ratchet under any arrival order and duplication (C02), the queue contracts incl. the lost wake-up (C15), push/log interplay (C14). See DESIGN 8.',
-}
+CLAIMED['C08'] = dict(
+    text='Symbolic execution of the real message pipeline (processMessageLoop, getOrCreateDeviceCache, processMessage, processDeviceMessagesInQueue, addToMessageQueue, '
+         'ProcessMessageQueueForDevicePK, both queues with the real container/heap and container/list, the secret store underneath) with the goroutine schedule a vector of solver '
+         'variables inside the path-forking interpreter (engine/wesym/coop.py): goroutines share one symbolic heap, change hands only at synchronisation operations, and which enabled '
+         'goroutine moves is a fresh variable constrained to the enabled set, forked over like any symbolic branch, up to a preemption bound. Entries of one sender arrive in a free order '
+         'while the chain-key announcement is registered concurrently; at quiescence (no goroutine can move) every entry was delivered, at most once per arrival, with the original '
+         'payload and sender, and nothing is parked. Found the stranded-message race (fixed).',
+    note=TA + 'Bounds: 1 sender, 1..2 entries (quick) / ..3 and a duplicate arrival (thorough), preemption bound per job (labels [pre<=k]). Assumes sequential consistency and data-race freedom '
+         'w.r.t. the synchronisation operations; the OrbitDB constructor and event bus are not executed (the harness starts the same goroutine bodies); several senders and batch events are outside.',
+    design='4b, 6/C08', technique='forking symbolic execution of go/ssa with a symbolic scheduler (context-bounded) + SMT (z3)')
+
+NOT_APPLICABLE = {}
 ALL = ['C%02d' % i for i in range(1, 21)]
 PENDING_REASON = 'no solver-based check registered yet for this property in the current state of /verif (see DESIGN.md section 9)'
 
